@@ -54,6 +54,7 @@ func c08cli(c *h.Ctx) {
 			id, dir   string
 			env, vars map[string]string
 			deps      []string
+			cond      string
 		}
 		envKeys := map[string]bool{"STAGE_ID": true, "TK": true, "COMMON": true, "INHERITED": true}
 		varKeys := map[string]bool{"TVAR": true, "CVAR": true}
@@ -71,6 +72,14 @@ func c08cli(c *h.Ctx) {
 				}
 				if r.Chance(35) {
 					s.env["INHERITED"] = "inherited-overridden-by-" + id // a name taskctl itself inherited from its parent
+					if r.Chance(30) {
+						s.env["INHERITED"] = "" // overridden with the empty value: defined and empty
+					}
+				}
+				if r.Chance(30) {
+					// a stage-level condition that holds and takes a moment (evaluated on every pass while the stage waits)
+					s.cond = real + "/cond-" + id + ".sh" // (executed directly, not through a shell)
+					os.WriteFile(s.cond, []byte(fmt.Sprintf("#!/bin/sh\nsleep 0.0%d\nexit 0\n", 2+r.Intn(6))), 0o755)
 				}
 				if r.Chance(70) {
 					s.vars["V_"+id] = "var-of-" + id
@@ -158,6 +167,9 @@ func c08cli(c *h.Ctx) {
 					} else {
 						o.Set("dir", s.dir)
 					}
+				}
+				if s.cond != "" {
+					o.Set("condition", s.cond)
 				}
 				if len(s.deps) > 0 {
 					var d []interface{}
